@@ -324,12 +324,18 @@ struct Mutator {
         }
         case 5: {  // strip attribute
             auto m = el.attributes();
-            if (m.count()) el.removeAttributeNode(m.item(rng() % m.count()).toAttr());
+            if (m.count()) {
+                auto a = m.item(rng() % m.count()).toAttr();
+                if (!isNsDecl(a)) el.removeAttributeNode(a);
+            }
             break;
         }
         case 6: {  // empty attribute
             auto m = el.attributes();
-            if (m.count()) m.item(rng() % m.count()).toAttr().setValue(QString());
+            if (m.count()) {
+                auto a = m.item(rng() % m.count()).toAttr();
+                if (!isNsDecl(a)) a.setValue(QString());  // (a second xmlns="" next to the implied declaration would not be well-formed)
+            }
             break;
         }
         case 7: {  // hostile attribute value
